@@ -16,7 +16,7 @@ func TestC20Ctl(t *testing.T) {
 	rapid.Check(t, func(rt *rapid.T) {
 		c := CtlCase{
 			Style:  rapid.SampledFrom([]string{"relative", "relative", "relative-deep", "absolute", "absolute-otherhost", "query", "slash"}).Draw(rt, "style"),
-			Base:   rapid.SampledFrom([]string{"slash", "slash", "noslash", "absent", "relpath", "other"}).Draw(rt, "base"),
+			Base:   rapid.SampledFrom([]string{"slash", "slash", "noslash", "absent", "relpath", "relpath-esc", "other"}).Draw(rt, "base"),
 			Path:   rapid.StringMatching(`[a-zA-Z0-9_=.-]{1,8}(/[a-zA-Z0-9_=.-]{1,8}){0,2}`).Draw(rt, "path"),
 			Creds:  rapid.Bool().Draw(rt, "creds"),
 			Medias: rapid.IntRange(1, 3).Draw(rt, "medias"),
